@@ -1065,7 +1065,10 @@ fn c13_iu_case(seed: u64, idx: u64) -> CaseOut {
     let mut rng = Rng::derive(seed, 1313, idx);
     let replay = format!("{seed}:{idx}");
     // (clusters of one configuration have the same width, as the builder demands)
-    let sets: [&[&str]; 6] = [
+    let sets: [&[&str]; 8] = [
+        // clusters that only EXTENDED grapheme segmentation keeps together: base + spacing vowel sign, Thai SARA AM
+        &["\u{915}\u{93E}", "\u{915}\u{93F}", "\u{915}\u{940}"],
+        &["\u{E01}\u{E33}", "\u{E02}\u{E33}"],
         &["\u{2764}\u{FE0F}", "\u{2B50}\u{FE0F}", "\u{2601}\u{FE0F}"], // emoji + variation selector 16
         &["\u{1F44D}\u{1F3FD}", "\u{1F44E}\u{1F3FD}"],                 // emoji + skin tone modifier
         &["e\u{301}", "a\u{300}", "-"],                                 // base + combining mark
